@@ -94,6 +94,8 @@ Val(b, x) == IF b[x] = EMPTY THEN 0 ELSE b[x]
 Effect(model, b, ck) ==
   CASE model.kind = "set" /\ Active(model, ck.count) ->
          [b EXCEPT ![model.b] = model.base + ck.count]
+    [] model.kind = "cset" /\ Active(model, ck.count) ->      \* the same content at every step
+         [b EXCEPT ![model.b] = model.base]
     [] model.kind = "add" /\ Active(model, ck.count) ->
          [b EXCEPT ![model.b] = Val(b, model.b) + model.base + ck.count]
     [] model.kind = "padd" /\ Active(model, ck.count) ->      \* charge added as positioned clusters
@@ -158,6 +160,7 @@ RunModel ==
   /\ m <= Len(cfg.pipe[g])
   /\ LET model == cfg.pipe[g][m] IN
        /\ model.enabled
+       /\ model.kind # "opaque"
        /\ ~ Raises(model, i)
        /\ calls' = Append(calls, CallRecord(model))
        /\ bucket' = Effect(model, bucket, clock)
@@ -174,6 +177,34 @@ ModelRaise ==
        /\ error' = [g |-> g, name |-> model.name, exc |-> model.b, msg |-> model.args]
   /\ pc' = "failed"
   /\ result' = EmptyResult           \* no result object is returned
+  /\ UNCHANGED << cfg, i, g, m, clock, bucket, eos >>
+
+\* A library model whose effect the specification does not predict (kind "opaque"):
+\* it may leave any content in any bucket (`after`), or raise.  The life-cycle and
+\* result properties must hold whatever such models do.  Used for executions of
+\* the real model library recorded through the hooks (HookTrace) and by the
+\* "opaque" model-checking family.
+RunOpaque(after) ==
+  /\ pc = "run" /\ g <= NG
+  /\ m <= Len(cfg.pipe[g])
+  /\ LET model == cfg.pipe[g][m] IN
+       /\ model.enabled
+       /\ model.kind = "opaque"
+       /\ calls' = Append(calls, CallRecord(model))
+  /\ bucket' = after
+  /\ m' = m + 1
+  /\ UNCHANGED << cfg, pc, i, g, clock, eos, result, error >>
+
+OpaqueRaise ==
+  /\ pc = "run" /\ g <= NG
+  /\ m <= Len(cfg.pipe[g])
+  /\ LET model == cfg.pipe[g][m] IN
+       /\ model.enabled
+       /\ model.kind = "opaque"
+       /\ calls' = Append(calls, CallRecord(model))
+       /\ error' = [g |-> g, name |-> model.name, exc |-> "opaque", msg |-> model.args]
+  /\ pc' = "failed"
+  /\ result' = EmptyResult
   /\ UNCHANGED << cfg, i, g, m, clock, bucket, eos >>
 
 Slice == [ x \in ArrayBuckets |-> [label |-> clock.abs, level |-> bucket[x]] ]
@@ -218,6 +249,45 @@ InitWith(c) ==
   /\ eos = << >>
   /\ result = EmptyResult
   /\ error = "none"
+
+---------------------------------------------------------------------------
+\* A session: several runs with the same pipeline, detector and mode objects, which
+\* the user reconfigures between runs (enabled flags, model arguments, schedule).
+\* Every run obeys the configuration as it is when the run starts; nothing of an
+\* earlier run or of an earlier configuration may survive (caches, counters).
+\* The detector is re-used: a run starts from the buckets the previous one left.
+
+\* (the histories of the previous run are dropped by Restart before anything is
+\* reconfigured, so that the invariants always speak about one run and the
+\* configuration it started with)
+Idle == pc = "new"
+
+Toggle(gg, mm) ==
+  /\ Idle
+  /\ gg \in 1 .. NG /\ mm \in 1 .. Len(cfg.pipe[gg])
+  /\ cfg' = [cfg EXCEPT !.pipe[gg][mm].enabled = ~ @]
+  /\ UNCHANGED << pc, i, g, m, clock, bucket, calls, eos, result, error >>
+
+SetArgs(gg, mm, a) ==
+  /\ Idle
+  /\ gg \in 1 .. NG /\ mm \in 1 .. Len(cfg.pipe[gg])
+  /\ cfg' = [cfg EXCEPT !.pipe[gg][mm].args = a]
+  /\ UNCHANGED << pc, i, g, m, clock, bucket, calls, eos, result, error >>
+
+Reschedule(ts, st, nd) ==
+  /\ Idle
+  /\ cfg' = [cfg EXCEPT !.times = ts, !.start = st, !.nd = nd]
+  /\ UNCHANGED << pc, i, g, m, clock, bucket, calls, eos, result, error >>
+
+Restart ==
+  /\ pc \in {"done", "failed", "rejected"}
+  /\ pc' = "new"
+  /\ i' = 0 /\ g' = 1 /\ m' = 1
+  /\ clock' = NoClock
+  /\ calls' = << >> /\ eos' = << >>
+  /\ result' = EmptyResult
+  /\ error' = "none"
+  /\ UNCHANGED << cfg, bucket >>
 
 ---------------------------------------------------------------------------
 \* C01 - enabled models run once per readout, in the fixed physical order.
@@ -307,7 +377,7 @@ C09_Identity ==
        /\ error.g = c.g /\ error.name = c.name /\ error.msg = c.args
 
 \* no call is logged after the raising one: once failed, nothing is enabled
-C09_Stops == pc \in {"failed", "rejected", "done"} => ~ ENABLED Next
+C09_Stops == pc \in {"failed", "rejected", "done"} => ~ ENABLED (Next \/ OpaqueRaise)
 
 ---------------------------------------------------------------------------
 \* C17 - for flux-integrating pipelines the accumulated pixel charge depends
